@@ -249,7 +249,14 @@ class _Judge(object):
             problem = valid(composed)
             if problem:
                 self.add('compose-differs', {'model': model_brief, 'library': _brief(composed), 'problem': problem})
-        elif composed != expected:
+        elif composed == expected:
+            try:
+                again = bytes(obj.compose())
+            except Exception as e:  # pylint: disable=broad-except
+                again = repr(e)[:200]
+            if again != composed:
+                self.add('compose-not-repeatable', {'model': model_brief, 'first': _brief(composed), 'second': _brief(again)})
+        if valid is None and composed != expected:
             self.add('compose-differs', {
                 'model': model_brief, 'library': _brief(composed), 'reference': _brief(expected),
                 'library_len': len(composed), 'reference_len': len(expected),
